@@ -84,7 +84,7 @@ class Layout:
                 seen_tags.append(si)
                 continue
             si = next((i for i, l in enumerate(self.lay)
-                       if l["chunk_bytes"] > 0 and l["data_pos"] <= p < l["data_pos"] + l["chunk_bytes"] * max(1, l["nchunks"])),
+                       if l["chunk_bytes"] > 0 and l["data_pos"] <= p < l["data_pos"] + l["chunk_bytes"] * l["nchunks"]),
                       None)
             if si is None:
                 problems.append("read of %d bytes at %d outside any raw data" % (k, p))
@@ -363,7 +363,7 @@ def main():
         dict(kind="new", be=False, objs=[["b", 4], ["a", 4]], interleaved=False, nchunks=3)])
     for spec in (d3, d13):
         run_file(ctx, spec, rng, "witness_files", vol)
-    nfiles = run.pick(40, 1200)
+    nfiles = run.pick(120, 1200)
     for it in range(nfiles):
         spec = G.gen_spec(rng, big=(it % 2 == 0), small=(it % 3 != 2))
         run_file(ctx, spec, rng, "generated_files", vol)
